@@ -19,7 +19,9 @@ from . import observe as O
 
 PID = 'C18'
 TRACE_CFG = 'SPECIFICATION Spec\nINVARIANT VerdictOk\nCHECK_DEADLOCK FALSE\n'
-KINDS = [('NL', 0), ('NL', 1), ('NL', 2), ('NL', 3), ('OPEN', 0), ('CLOSE', 0), ('OTHER', 0)]
+KINDS = [('NL', 0), ('NL', 1), ('NL', 2), ('NL', 3), ('OPEN', 0), ('CLOSE', 0), ('OTHER', 0), ('NLC', 0), ('NLC', 1)]
+# NLC: a newline token that ends in a comment (ind 0) or holds no line break at all (ind 1)
+NLC_TEXTS = [['\n# a b  c', '\n  # a\tb', '\n\n    #  x y z w', '\n \n# t\t\t', '# c\n\t# d e f  g'], ['# a b', '#  x\ty  z', '#']]
 
 
 def make_indenter(tab_len):
@@ -57,6 +59,9 @@ def run_history(spec):
     for s in spec['streams']:
         toks = []
         for k, n in s['toks']:
+            if k == 'NLC':
+                toks.append(Token('NL', rng.choice(NLC_TEXTS[n])))
+                continue
             toks.append(Token('NL', nl_text(n, spec['tab_len'], rng)) if k == 'NL' else Token(k, {'OPEN': '(', 'CLOSE': ')', 'OTHER': 'x'}[k]))
         got, err = [], ''
         gen = ind.process(iter(toks))
@@ -95,7 +100,10 @@ def cpython_depths(src):
 
 def program_of(toks):
     parts = []
-    for k, n in toks:
+    for i, (k, n) in enumerate(toks):
+        if k == 'NLC':      # only as the last token of a program: a comment that ends the file without a line break
+            parts.append(['\n# a b  c', '# a b'][n] if i % 2 else ['\n   # a b\tc', '#  a'][n])
+            continue
         parts.append('\n' + ' ' * n if k == 'NL' else {'OPEN': '( ', 'CLOSE': ') ', 'OTHER': 'x '}[k])
     return ''.join(parts)
 
@@ -143,7 +151,9 @@ def wellformed_for_cpython(toks):
         if k == 'NL' and prev == 'NL':
             return False
         prev = k
-    if depth != 0 or not toks or toks[0][0] == 'NL':
+    if depth != 0 or not toks or toks[0][0] in ('NL', 'NLC'):
+        return False
+    if any(k == 'NLC' for k, n in toks[:-1]) or (toks[-1][0] == 'NLC' and len(toks) > 1 and toks[-2][0] == 'NL'):
         return False
     return toks[-1][0] != 'NL' or toks[-1][1] == 0
 
@@ -170,9 +180,11 @@ def specs(tier, rng):
     for _ in range(C.scale(3000 if tier == 'quick' else 30000)):
         s = [('OTHER', 0)]
         for _ in range(rng.randint(3, 12)):
-            s.append(rng.choice(KINDS + [('OTHER', 0), ('NL', 0), ('NL', 1), ('NL', 2)]))
+            s.append(rng.choice(KINDS[:7] + [('OTHER', 0), ('NL', 0), ('NL', 1), ('NL', 2)]))
             if s[-1][0] == 'NL' and s[-2][0] == 'NL':
                 s[-1] = ('OTHER', 0)
+        if rng.random() < 0.3 and s[-1][0] != 'NL':
+            s.append(('NLC', rng.randint(0, 1)))
         if wellformed_for_cpython(s):
             longer.append(s)
     return hist, F.sample(progs, C.scale(2500), rng) + longer
@@ -209,7 +221,7 @@ def body(tier, seed, replay):
             judge([got], ev, rep, tmp, 'replay')
             return rep.finish()
         res = C.tlc('MC_Indenter', 'SPECIFICATION Spec\nCONSTANTS\n MaxLen = %d\n MaxInd = 3\nINVARIANT StackLaw\nINVARIANT Balanced\nINVARIANT OnlyAfterNL\n'
-                    'INVARIANT PassThrough\nINVARIANT ErrorLaw\nINVARIANT NoSpuriousOk\nCHECK_DEADLOCK FALSE\n' % (6 if tier == 'quick' else 7), timeout=3000)
+                    'INVARIANT PassThrough\nINVARIANT CommentNeutral\nINVARIANT ErrorLaw\nINVARIANT NoSpuriousOk\nCHECK_DEADLOCK FALSE\n' % (6 if tier == 'quick' else 7), timeout=3000)
         C.tlc_must_run(res, 'MC_Indenter')
         ev.add_tlc('MC_Indenter', res, 'design')
         if not res.ok:
